@@ -1309,7 +1309,7 @@ func TestC10(t *testing.T) {
 	prop := func(cs *hx.Case) { c10Prop(cs, false) }
 	c.Check(t, "sandbox-sequence", hx.N(100000, 400000), prop)
 	// several stored buckets whose names extend one another around the separator, scans from the bucket start
-	c.Check(t, c10FamilyCheck, hx.N(30000, 120000), func(cs *hx.Case) { c10Prop(cs, true) })
+	c.Check(t, c10FamilyCheck, hx.N(25000, 100000), func(cs *hx.Case) { c10Prop(cs, true) })
 
 	if hx.Tier() == "thorough" {
 		if rb := c10RealBacking(); rb != nil {
